@@ -1275,10 +1275,12 @@ def groupby_projection(expr, parent, dependents):
         columns = [col for col in expr.frame.columns if col in columns]
         if columns == expr.frame.columns:
             return
-        return type(parent)(
-            type(expr)(expr.frame[columns], *expr.operands[1:]),
-            *parent.operands[1:],
-        )
+        result = type(expr)(expr.frame[columns], *expr.operands[1:])
+        if "_slice" in expr._parameters and isinstance(expr.operand("_slice"), list):
+            # the columns selected from the groupby have to follow the pruned frame
+            _slice = [col for col in expr.operand("_slice") if col in columns]
+            result = result.substitute_parameters({"_slice": _slice})
+        return type(parent)(result, *parent.operands[1:])
     return
 
 
